@@ -23,6 +23,7 @@ CARRIERS = {
     'semi': 'a = 1; b = 2\nc = 3\n',
     'semi_multi': 'x = [1,\n     2]; y = 3\nz = 4\n',
     'whileelse': 'while a:\n    pass\nelse:\n    pass\nif a + b:\n    c\n',
+    'tailcmt': 'if a:\n  x=1+2\nelse:\n  for i in j:\n    y=3+4\n',
     'tryexc': 'try:\n    a\nexcept E as e:\n    b\nfinally:\n    c\n',
     'def': 'def f(a, b=1):\n    """d"""\n    return a\nx = f(1)\n',
     'uni': 'é = "ñ"; y = é\nif é:\n    z = "𝒳"  # ç\n',
@@ -177,7 +178,7 @@ def _mk_rawput(key):
 FNR = ['fst.fst.FST.put_src', 'fst.fst_raw._reparse_raw', 'fst.fst_raw._reparse_raw_stmtlike', 'fst.fst_raw._reparse_raw_base', 'fst.fst_misc.clip_src_loc',
        'fst.fst.FST.find_contains_loc', 'fst.fst_core._put_src', 'fst.fst_core._offset', 'fst.fst_core._set_ast']
 CELLS = []
-_Q = {('semi', 3), ('uni2', 2), ('semi_multi', 5), ('whileelse', 12), ('tryexc', 14)}
+_Q = {('semi', 3), ('uni2', 2), ('semi_multi', 5), ('whileelse', 12), ('tryexc', 14), ('tailcmt', 9)}
 for _k in CARRIERS:
     _nl = len(CARRIERS[_k].split('\n'))
     for _ti in range(len(TEXTS)):
